@@ -255,6 +255,16 @@ def run_numbers(chk, quick, corpus, replay):
             if want != o["bits"]:
                 chk.violation("number %r: value bits %s, the correctly rounded double of %s is %s" % (s, o["bits"], spelling, want),
                               "numeric:value", {"kind": "num", "cps": cps(s), "text": s, "expected_bits": want, "observed_bits": o["bits"]})
+    # ... and the value the literal has when a program evaluates it (令数值量 = <literal>; 输出数值量)
+    nums = [(s, m) for s, m in zip(strings, model) if m[0] == 1 and not any(ch in s for ch in " \t\n")]
+    evs = core.harness("c04", "evalnum", [{"cps": cps(s)} for s, _ in nums])
+    for (s, m), o in zip(nums, evs):
+        want = f64bits(float(text(m[1:])))
+        chk.dist("numeric:value-evaluated")
+        if o.get("kind") != 1 or o.get("bits") != want:
+            chk.violation("number %r evaluated by a program: %s; the correctly rounded double of %s is %s" % (
+                s, ("value bits %s" % o.get("bits")) if o.get("kind") == 1 else ("no number: %s" % json.dumps(o)[:80]), text(m[1:]), want),
+                "numeric:evaluated-value", {"kind": "num", "cps": cps(s), "text": s, "expected_bits": want, "observed": o})
     if strings:
         chk.sample({"numeric": strings[len(strings) // 2], "expected": KIND[model[len(strings) // 2][0]]})
     if replay is not None:
